@@ -71,6 +71,10 @@ func GenInProc(t *rapid.T) *FCase {
 func GenKillConc(t *rapid.T) *KCase {
 	c := &KCase{Writers: rapid.IntRange(2, 8).Draw(t, "writers"), Each: rapid.IntRange(2, 10).Draw(t, "each"),
 		Size: rapid.SampledFrom([]int{0, 100, 5000, 70000}).Draw(t, "size"), DelayUs: rapid.SampledFrom([]int{0, 0, 50, 200, 800}).Draw(t, "delay")}
+	c.Saver = rapid.Bool().Draw(t, "saver")
 	c.KillAt = rapid.IntRange(0, c.Writers*c.Each).Draw(t, "killAt")
+	if c.Saver {
+		c.KillAt = rapid.IntRange(0, 2*c.Writers*c.Each).Draw(t, "killAtS")
+	}
 	return c
 }
